@@ -19,7 +19,7 @@ ASSUMPTIONS = [
 
 EXHAUSTIVE_NOTE = 'F2 enumerates the full ending x kill x phase table in every run (each cell at least once per shard rotation); values, exception classes and accessor orders are generated'
 
-ENDINGS = ['return', 'raise', 'raise_base', 'raise_multiarg', 'exit_none', 'exit_0', 'exit_n', 'exit_str']
+ENDINGS = ['return', 'raise', 'raise_from', 'raise_base', 'raise_multiarg', 'exit_none', 'exit_0', 'exit_n', 'exit_str']
 ACCESSORS = ['join', 'result', 'exception', 'done', 'is_alive', 'wait', 'as_completed', 'result_t', 'exception_t', 'join_t', 'wait_t']
 
 
@@ -48,7 +48,7 @@ def expected_ending(spec):
         return ('error', 'SystemExit', (spec['code'],))
     if e == 'exit_str':
         return ('error', 'SystemExit', ('bye',))
-    ex = targets.build_exc(spec['exc'] if e == 'raise' else ('KeyboardInterrupt' if e == 'raise_base' else 'MultiArg'))
+    ex = targets.build_exc(spec['exc'] if e in ('raise', 'raise_from') else ('KeyboardInterrupt' if e == 'raise_base' else 'MultiArg'))
     return ('error', type(ex).__name__, ex.args)
 
 
@@ -64,6 +64,13 @@ def judge_record(rec, spec, t_end, tol=1e-9):
         return isinstance(p, BaseException) and type(p).__name__ == exp[1] and tuple(p.args) == tuple(exp[2])
 
     base = name.split('_')[0]
+    if exp[0] == 'error' and isinstance(payload, BaseException) and is_err(payload) and spec['ending'].startswith('raise'):
+        import traceback as _tb
+
+        txt = ''.join(_tb.format_exception(type(payload), payload, payload.__traceback__))
+        marker = {'raise': 'raise build_exc(exc)', 'raise_from': 'raise build_exc(exc) from ie', 'raise_base': "raise build_exc('KeyboardInterrupt')", 'raise_multiarg': "raise build_exc('MultiArg')"}[spec['ending']]
+        if 'end_like' not in txt or marker not in txt:
+            return ('traceback_lost', f"{name}: the re-raised {exp[1]} does not carry the thread's traceback text showing the raise site in the target ({marker!r}): {txt[-400:]}")
     if kind == 'hang':
         return ('accessor_hung', f'{name} did not return')
     if kind == 'raised' and type(payload).__name__ in ('AttributeError', 'TypeError', 'InvalidStateError') and not (exp[0] == 'error' and is_err(payload)):
@@ -199,7 +206,7 @@ def run_thread_case(spec):
 
 KILLS = ['none', 'SIGKILL', 'SIGABRT', 'SIGUSR1', 'terminate']
 PHASES = ['before_target', 'during', 'after_result']
-P_ENDINGS = ['return', 'raise', 'raise_multiarg', 'exit_none', 'exit_0', 'exit_n', 'exit_str', 'unpicklable']
+P_ENDINGS = ['return', 'raise', 'raise_from', 'raise_multiarg', 'exit_none', 'exit_0', 'exit_n', 'exit_str', 'unpicklable']
 TABLE = [(e, 'none', '-') for e in P_ENDINGS] + [(e, k, p) for e in ('return', 'raise') for k in KILLS[1:] for p in PHASES]
 
 
@@ -217,6 +224,8 @@ def proc_spec(draw):
         'code': draw(st.integers(2, 5)),
         'accessors': draw(st.permutations(['join', 'result', 'exception', 'done', 'exitcode', 'wait', 'as_completed'])),
         'log_lines': draw(st.sampled_from([0, 0, 3])),
+        'probe_running': draw(st.booleans()),
+        'slow_ms': draw(st.sampled_from([0, 0, 700])) if k == 'none' else 0,
     }
 
 
@@ -234,6 +243,21 @@ def run_proc_case(spec):
     for name, kind, payload in recs:
         if kind == 'hang':
             raise Violation('accessor_hung', f'{name} did not return within 10 s after the child was gone ({ending}/{kill}/{spec["phase"]}); records {recs}', signature=['accessor_hung', name, kill])
+    for rec in res.get('running', []):
+        name = rec[0]
+        if name == 'done' and rec[1] is not False:
+            raise Violation('done_while_running', f'done() returned {rec[1]} while the target was running', signature=['done_while_running', 'process'])
+        if name == 'is_alive' and rec[1] is not True:
+            raise Violation('not_alive_while_running', f'is_alive() returned {rec[1]} while the target was running', signature=['not_alive_while_running'])
+        if name in ('result', 'exception'):
+            if rec[1] != 'mp_timeout':
+                raise Violation('timeout_not_raised', f'{name}(0.15) while the target was running gave {rec[1]}, expected mpservice TimeoutError', signature=['timeout_not_raised', name, 'process'])
+            if not (0.1 <= rec[2] <= 3.0):
+                raise Violation('timeout_inexact', f'{name}(0.15) returned after {rec[2]:.2f}s', signature=['timeout_inexact', name])
+        if name == 'wait' and rec[1] != 'not_done':
+            raise Violation('wait_wrong', f'wait(timeout=0.15) while running reported {rec[1]}', signature=['wait_wrong', 'process'])
+        if name == 'join' and rec[1] != 'None':
+            raise Violation('join_raised', f'join(0.1) while running gave {rec[1]}', signature=['join_raised', 'running'])
     by = {name: (kind, payload) for name, kind, payload in recs}
     effective_kill = kill != 'none' and not res.get('kill_missed')
     if not effective_kill:
@@ -246,8 +270,8 @@ def run_proc_case(spec):
             exp = ('error', 'SystemExit', repr((spec['code'],)), spec['code'])
         elif ending == 'exit_str':
             exp = ('error', 'SystemExit', repr(('bye',)), 1)
-        elif ending in ('raise', 'raise_multiarg'):
-            ex = targets.build_exc(spec['exc'] if ending == 'raise' else 'MultiArg')
+        elif ending in ('raise', 'raise_from', 'raise_multiarg'):
+            ex = targets.build_exc(spec['exc'] if ending in ('raise', 'raise_from') else 'MultiArg')
             exp = ('error', type(ex).__name__, repr(tuple(ex.args)), 1)
         if exp is not None and exp[0] == 'value':
             if by['join'] != ('returned', 'None'):
@@ -297,7 +321,7 @@ def run_proc_case(spec):
     return CaseInfo(
         nontrivial=not (ending == 'return' and kill == 'none'),
         descriptor=[spec['cell'], spec['accessors'][0], spec['exc'] if ending == 'raise' else None],
-        classes=('process', f'cell_{ending}_{kill}_{spec["phase"]}', 'first_' + spec['accessors'][0], 'kill_missed' if res.get('kill_missed') else 'as_planned'),
+        classes=('process', f'cell_{ending}_{kill}_{spec["phase"]}', 'first_' + spec['accessors'][0], 'kill_missed' if res.get('kill_missed') else 'as_planned', 'probed_while_running' if res.get('running') else 'not_probed'),
         sample={'ending': ending, 'kill': kill, 'phase': spec['phase'], 'accessors': list(spec['accessors']), 'records': recs},
     )
 
